@@ -84,6 +84,16 @@ def run_all(scn, reflog, EoN):
     for iface in ("separate", "joint", "joint-sparse", "separate,labels-from-0", "joint,labels-from-0"):
         tt, rt, jt, js = make_fxns(scn)
         fk = dict(trans_time_fxn=tt, rec_time_fxn=rt) if iface == "separate" else dict(trans_and_rec_time_fxn=jt if iface == "joint" else js)
+        if iface == "separate":
+            # the two user functions receive their own extra arguments (trans_time_args / rec_time_args)
+            def tt_a(u, v, rd, tag, _tt=tt):
+                d_ = _tt(u, v, rd)
+                return d_ if tag == "for-trans" else [x + 0.5 for x in d_]
+
+            def rt_a(u, tag, _rt=rt):
+                d_ = _rt(u)
+                return d_ if tag == "for-rec" else d_ + 0.5
+            fk = dict(trans_time_fxn=tt_a, rec_time_fxn=rt_a, trans_time_args=("for-trans",), rec_time_args=("for-rec",))
         name = "fast_nonMarkov_SIS(%s)" % iface
         try:
             if iface.endswith("labels-from-0"):
